@@ -291,6 +291,7 @@ def run_model(ctx, imports, fn, case_ty, cases, sub=""):
     for f in os.listdir(d):
         if f.startswith("cases_"):
             os.remove(os.path.join(d, f))
+    SHARD = int(getattr(sys.modules.get('props.' + ctx.prop.lower()), 'SHARD', 300))
     shards = [cases[i:i + SHARD] for i in range(0, len(cases), SHARD)]
     files = []
     for k, sh in enumerate(shards):
@@ -316,6 +317,7 @@ def run_model(ctx, imports, fn, case_ty, cases, sub=""):
             continue
         for m in re.finditer(r'\((\d+)(?:%N)?,\s*"([^"]*)"\)', out):
             mism[k * SHARD + int(m.group(1))] = ob_parse(m.group(2))
+    
     return mism, failed, len(shards)
 
 
